@@ -142,6 +142,8 @@ def C11(tier, seed):
             drivers += hist_jobs(f"hist_rw_{tk}_", seed, 4 if tk != "t22fee" else 2, 4, 200, tk, ["--rewards", "1"])
         else:
             drivers += hist_jobs(f"hist_rw_{tk}_", seed, 8, 40, 300, tk, ["--rewards", "1"])
+    # rewards on adaptive-fee pools as well
+    drivers += hist_jobs("hist_rw_af_", seed, 1 if tier == "quick" else 4, 4 if tier == "quick" else 40, 200 if tier == "quick" else 300, "spl", ["--rewards", "1", "--adaptive", "1"])
     models = [mc("MC_Rewards", tier, "MC_Rewards"), {"name": "MC_Rewards_cov", "module": "MC_Rewards", "cfg": "MC_Rewards_cov.cfg", "timeout": 600, "workers": 1}]
     return {"active": ["C11"], "drivers": drivers, "models": models,
             "must_exercise": {"set_reward_emissions": 5, "collect_reward": 5, "initialize_reward": 3, "update_fees_and_rewards": 10, "swap": 20},
